@@ -157,7 +157,12 @@ where
             //expand the map
             self.data.resize_with(x.as_usize() + 1, Default::default);
         }
-        self.data[x.as_usize()].push(y);
+        let values = &mut self.data[x.as_usize()];
+        if values.last() != Some(&y) {
+            //relations are inserted in sorted order, so a duplicate can only be the last element
+            //(e.g. an annotation that reaches the same item via two of its selectors)
+            values.push(y);
+        }
     }
 
     /// Remove a relation from the map
@@ -271,7 +276,10 @@ where
     /// Insert a relation into the map
     pub fn insert(&mut self, x: A, y: B) {
         if self.data.contains_key(&x) {
-            self.data.get_mut(&x).unwrap().push(y);
+            let values = self.data.get_mut(&x).unwrap();
+            if values.last() != Some(&y) {
+                values.push(y);
+            }
         } else {
             self.data.insert(x, vec![y]);
         }
